@@ -150,6 +150,7 @@ let junk_elem (pat : int) (live : elem array) (p : z) : elem =
   | 1 -> { eid = usize_max; eval = usize_max }
   | 2 -> { eid = big5a; eval = big5a }
   | 3 -> { eid = Z.add (z_of_int 1000000) p; eval = z_of_int 77 }
+  | 5 -> { eid = Z0; eval = Z0 }      (* uninitialised in the harness: nobody may look *)
   | _ ->
     let n = Array.length live in
     if n = 0 then { eid = Z0; eval = Z0 }
